@@ -540,3 +540,50 @@ def lookup_threading(ctx):
                         witness=str(sorted(lk)))
             ln = lk.get(keys[3])
             ctx.decided("%s/stored-length-is-the-last-end" % kind, "ensures", is_z3(ln) and ln.eq(cs[-1][3]), witness=repr(ln))
+
+
+@unit("C06", "pit/fill_threading", functions=[PS + ":initialize_pit"], engine="E1")
+def pit_fill_threading(ctx):
+    """initialize_pit (steady state): lookups are created first, then ONE pit; every component fills that pit's node part,
+    branch part and component-array dictionary, in this order and in component order; the old-pit copy is taken after all
+    of them -- so the per-component contracts (rows [start, end) of the component's block) compose to one pit"""
+    ctx.assume("A6")
+    log = []
+    pit = {"node": K.sym_pit("node_pit", z3.Int("NN"), NCN), "branch": K.sym_pit("branch_pit", NB, NCB), "components": {}}
+
+    class _Meth:
+        def __init__(self, comp, kind):
+            self.comp, self.kind = comp, kind
+
+        def call(self, ev, args, kwargs, lineno):
+            log.append((self.kind, self.comp, list(args)))
+            return None
+    comps = []
+    for nm in ("c0", "c1"):
+        o = E.Obj(nm, {})
+        for kind in ("create_pit_node_entries", "create_pit_branch_entries", "create_component_array"):
+            o.attrs[kind] = _Meth(nm, kind)
+        comps.append(o)
+    net = K.NetObj({"component_list": comps, "_options": {"transient": False, "simulation_time_step": 0}, "converged": False})
+
+    def rec(tag, ret=None):
+        def c(ev, a, k):
+            log.append((tag, None, list(a)))
+            return ret
+        return c
+    paths = T.run_paths(ctx, PS + ":initialize_pit", lambda: ([net], {}), contracts={
+        PS + ":create_lookups": rec("create_lookups"), PS + ":create_empty_pit": rec("create_empty_pit", pit),
+        PS + ":create_old_pit": rec("create_old_pit")})
+    ok = len(paths) >= 1 and all(p.exc is None for p in paths)
+    ctx.decided("returns", "cover", ok, witness=str([str(p.exc) for p in paths]))
+    if not ok:
+        return
+    kinds = [(t, c) for t, c, _ in log]
+    want = [("create_lookups", None), ("create_empty_pit", None)]
+    for nm in ("c0", "c1"):
+        want += [("create_pit_node_entries", nm), ("create_pit_branch_entries", nm), ("create_component_array", nm)]
+    want += [("create_old_pit", None)]
+    ctx.decided("order-of-the-fill", "order", kinds[:len(want)] == want, witness=str(kinds))
+    part = {"create_pit_node_entries": "node", "create_pit_branch_entries": "branch", "create_component_array": "components"}
+    ctx.decided("every-component-fills-the-one-pit", "ensures",
+                all(a[0] is net and a[1] is pit[part[t]] for t, c, a in log if t in part), witness="a component received another array")
